@@ -97,7 +97,7 @@ pub fn check_batch(b: &KuBatch, probe: &Probe) -> Verdict {
     super::linerules::check_rule_batch("C07", b.host, &blocks, &exp, probe, &reduce)
 }
 
-const ALPHA: &[&str] = &["a", "a ", " a", "b", "", "  ", "A", "id:1 x", "id:1 y", "id:2 x", "zzz id:01", "a\u{a0}", "\u{3000}", "k 7", "j 7"];
+const ALPHA: &[&str] = &["a", "a ", " a", "b", "", "  ", "A", "id:1 x", "id:1 y", "id:2 x", "zzz id:01", "a\u{a0}", "\u{3000}", "k 7", "j 7", "t \"</block>\""];
 const RES: &[Option<&str>] = &[None, Some(""), Some("id:(?P<value>[0-9]+)"), Some("id:[0-9]+"), Some("id:(?<value>[0-9]+)"), Some("[0-9]+$")];
 
 pub fn enumerated(max_len: usize, batch: usize) -> Vec<KuBatch> {
@@ -124,8 +124,9 @@ fn long_spec() -> BoxedStrategy<KuSpec> {
         any::<bool>(),
         0usize..3,
         prop_oneof![2 => Just(0u8), 1 => 1u8..4],
+        prop_oneof![3 => Just(0usize), 1 => 1usize..4],
     )
-        .prop_map(|(ws, re_i, dup_free, indent, companion)| {
+        .prop_map(|(ws, re_i, dup_free, indent, companion, nested)| {
             let with_re = re_i >= 2;
             let mut lines: Vec<String> = vec![];
             for (k, (w, l, t, id)) in ws.into_iter().enumerate() {
@@ -137,6 +138,12 @@ fn long_spec() -> BoxedStrategy<KuSpec> {
                     format!("{}{core}{}", " ".repeat(l), " ".repeat(t))
                 });
             }
+            // nested blocks: their tag comments are lines of the outer block like any other (two nested blocks end
+            // in the same `# </block>` line, one already repeats a line when a string mentions a tag)
+            for j in 0..nested {
+                let at = (j * 7 + 2).min(lines.len());
+                lines.splice(at..at, [format!("# <block name=\"in{j}\">"), format!("q{j} id:{} \"</block>\"", 900 + j), "# </block>".to_string()]);
+            }
             KuSpec { re: RES[re_i].map(String::from), lines, indent, companion }
         })
         .boxed()
@@ -147,7 +154,7 @@ pub fn random_batch() -> BoxedStrategy<KuBatch> {
 }
 
 pub fn run(run: &mut Run) {
-    run.rule = "enumerated: every line sequence of length 0..k (k=4 quick, 5 thorough) over an 11-line alphabet (repeated keys, keys differing only in indentation/trailing blanks, keys differing only outside the regex group, blank and non-matching lines) x {bare attribute, empty value, group regex in both spellings, plain regex, a regex anchored at the line end}, the bare form also together with keep-sorted / keep-sorted=desc on the same block (both rules' diagnostics expected); random: blocks of 5..150 lines with and without duplicates. Non-trivial block = at least 2 keys and (a duplicate key, a skipped line, or a repeated line); distinct by (batch, block).".into();
+    run.rule = "enumerated: every line sequence of length 0..k (k=4 quick, 5 thorough) over a 16-line alphabet (repeated keys, a line whose string mentions an end tag, keys differing only in indentation/trailing blanks, keys differing only outside the regex group, blank and non-matching lines) x {bare attribute, empty value, group regex in both spellings, plain regex, a regex anchored at the line end}, the bare form also together with keep-sorted / keep-sorted=desc on the same block (both rules' diagnostics expected); random: blocks of 5..150 lines with and without duplicates, a quarter of them holding 1..3 nested blocks (whose tag comments are lines of the outer block). Non-trivial block = at least 2 keys and (a duplicate key, a skipped line, or a repeated line); distinct by (batch, block).".into();
     run.assumptions = vec![
         "content lines are shell/ruby words (block discovery itself is C03)".into(),
         "regexes come from a fixed family with hand-written extractors".into(),
